@@ -250,9 +250,11 @@ pub fn c19(a: &Args) -> (Stats, String) {
                 // structured product
                 let ints: [&[u8]; 8] = [b"", b"0", b"00", b"1", b"10", b"007", b"1234567890123456789012345", b"9007199254740993"];
                 let fracs: [&[u8]; 8] = [b"", b".", b".0", b".5", b".50", b".000", b".0001", b".00000000000000000000000000000000001"];
-                let exps: [&[u8]; 14] = [
+                // exponent forms, the i32 limits, and the limits of the float ranges (where leading fraction zeros or
+                // trailing integer zeros compensate an exponent that alone would be out of range)
+                let exps: [&[u8]; 26] = [
                     b"", b"e", b"e+", b"e-", b"e5", b"E-5", b"e005", b"e2147483647", b"e2147483648", b"e-2147483648", b"e-2147483649", b"e99999999999", b"e-99999999999",
-                    b"e00000000000000000000000000000000001",
+                    b"e00000000000000000000000000000000001", b"e38", b"e39", b"e-45", b"e-46", b"e308", b"e309", b"e311", b"e343", b"e-323", b"e-324", b"e-331", b"e-358",
                 ];
                 let sufs: [&[u8]; 8] = [b"", b" ", b"x", b".", b"e", b"-", &[0], &[0xFF]];
                 for sign in [b"".as_ref(), b"+", b"-"] {
